@@ -366,6 +366,14 @@ theorem C06_after_export_spawn (o : ExportOpts) (m : VMap) :
   refine ⟨kv, ⟨hm, ?_⟩, hk⟩
   rw [hk]; decide
 
+/-- **Parsing takes a value.** Any number of parses of one tree object, with `preserve_ids` either
+way in any order: each gives `parseTree p t` of the ORIGINAL tree (what a fresh tree gives), and the
+tree is unchanged afterwards. Immediate in the model (a call returns `(parseTree p t, t)`); for the
+code it rests on the tie (snapshots of the Keyvalues tree around every `VMF.parse`, repeated parses of
+one tree object). -/
+theorem C06_parse_pure (t : List KV) (ps : List Bool) :
+    (parseMany t ps).1 = ps.map (fun p => parseTree p t) ∧ (parseMany t ps).2 = t := parseMany_spec t ps
+
 /-! ### Non-vacuity: a map with hidden objects, a brush entity, outputs of both separator kinds,
 an `instance:` output, fixups, nested visgroups, a group, Strata viewports with zeros, a camera and
 a cordon satisfies the hypotheses. -/
